@@ -288,6 +288,9 @@ def deepcopy(I, a, k):
             if id(v) in seen:
                 return seen[id(v)]
             d = {}
+            if isinstance(v, ops.DefaultDict):
+                d = ops.DefaultDict()
+                d.default_factory = v.default_factory
             seen[id(v)] = d
             for kk, vv in v.items():
                 d[kk] = rec(vv)
@@ -324,7 +327,39 @@ def make_models(extra_numpy=None):
     typing_names["TypeVar"] = Builtin("TypeVar", lambda I, a, k: TypingMarker("TypeVar:" + str(a[0])), lenient=True)
     M["typing"] = ExtModule("typing", typing_names)
     M["collections.abc"] = ExtModule("collections.abc", {n: TypingMarker(n) for n in ["Generator", "Callable", "Iterator"]})
-    M["collections"] = ExtModule("collections", {"abc": M["collections.abc"]})
+    def deque(I, a, k):
+        maxlen = k.get("maxlen", a[1] if len(a) > 1 else None)
+        if maxlen is not None and (isinstance(maxlen, bool) or not isinstance(maxlen, int)):
+            raise Unsupported("deque with a symbolic maxlen")
+        if maxlen is not None and maxlen < 0:
+            raise PyExc("ValueError", ("maxlen must be non-negative",))
+        d = ops.DequeModel([], maxlen)
+        for x in (ops.iterate(I, a[0]) if a else k.get("iterable", ())):
+            d.items.append(x)
+            d._trim(True)
+        return d
+
+    def defaultdict(I, a, k):
+        d = ops.DefaultDict()
+        d.default_factory = a[0] if a else None
+        if len(a) > 1:
+            src = a[1]
+            for kk, vv in (src.items() if isinstance(src, dict) else [tuple(ops.iterate(I, p_)) for p_ in ops.iterate(I, src)]):
+                d[ops.hashable(kk)] = vv
+        for kk, vv in k.items():
+            d[kk] = vv
+        return d
+
+    def ordered_dict(I, a, k):
+        d = {}
+        if a:
+            src = a[0]
+            for kk, vv in (src.items() if isinstance(src, dict) else [tuple(ops.iterate(I, p_)) for p_ in ops.iterate(I, src)]):
+                d[ops.hashable(kk)] = vv
+        d.update(k)
+        return d          # insertion-ordered like every dict; move_to_end / popitem(last=) are not offered (out of reach)
+    M["collections"] = ExtModule("collections", {"abc": M["collections.abc"], "deque": Builtin("collections.deque", deque), "defaultdict": Builtin("collections.defaultdict", defaultdict, lenient=True),
+                                                 "OrderedDict": Builtin("collections.OrderedDict", ordered_dict, lenient=True)})
     M["abc"] = ExtModule("abc", {"ABC": TypingMarker("ABC"), "abstractmethod": Builtin("abstractmethod", lambda I, a, k: a[0])})
     M["warnings"] = ExtModule("warnings", {"warn": Builtin("warn", lambda I, a, k: I.path.event("warn", ops.describe(a[0]) if a else ""), lenient=True)})
     def shallow_copy(I, a, k):
